@@ -58,6 +58,40 @@ theorem floatToInt_exact (x : Int) (h : -(2 ^ 53) < x ∧ x < 2 ^ 53) : floatToI
   unfold floatToInt?
   rw [hs, ofInt_exact x h]; simp
 
+/-! ### Date ↔ DateTime -/
+
+/-- Date → DateTime → Date returns the original date; Date → DateTime is injective. -/
+theorem date_round_trip (d : Int) : stampToDate? (dateToStamp d) = some d := by simp [stampToDate?, dateToStamp]
+theorem dateToStamp_injective (a b : Int) (h : dateToStamp a = dateToStamp b) : a = b := by
+  simpa [dateToStamp] using h
+
+/-- DateTime → Date is value-preserving wherever it is accepted: the accepted timestamp *is* the midnight of the date returned. -/
+theorem stampToDate_exact (s : Stamp) (d : Int) (h : stampToDate? s = some d) : dateToStamp d = s := by
+  unfold stampToDate? at h
+  split at h
+  · rename_i hz
+    cases s with
+    | mk day sec nano =>
+      simp only [Option.some.injEq] at h
+      simp only at hz
+      simp [dateToStamp, ← h, hz.1, hz.2]
+  · simp at h
+
+/-- … hence injective on what it accepts … -/
+theorem stampToDate_injective (s t : Stamp) (d : Int) (hs : stampToDate? s = some d) (ht : stampToDate? t = some d) : s = t := by
+  rw [← stampToDate_exact s d hs, ← stampToDate_exact t d ht]
+
+/-- … and a timestamp with any time of day, down to one nanosecond after midnight, is refused rather than truncated. -/
+theorem stampToDate_refuses (s : Stamp) (h : s.sec ≠ 0 ∨ s.nano ≠ 0) : stampToDate? s = none := by
+  unfold stampToDate?
+  split
+  · rename_i hz; rcases h with h | h
+    · exact absurd hz.1 h
+    · exact absurd hz.2 h
+  · rfl
+
+example : stampToDate? ⟨18700, 0, 250000000⟩ = none ∧ stampToDate? ⟨18700, 0, 0⟩ = some 18700 := by decide
+
 /-- Non-vacuity: ties-to-even at the first inexact integers. -/
 example : ofInt (2 ^ 53 + 1) = 2 ^ 53 ∧ ofInt (2 ^ 53 + 3) = 2 ^ 53 + 4 ∧ ofInt (-(2 ^ 62) - 513) = -(2 ^ 62) - 1024 ∧ ofInt (-(2 ^ 62) - 512) = -(2 ^ 62) ∧
     ofInt 9223372036854775807 = 2 ^ 63 := by decide
